@@ -4,7 +4,9 @@
 (* validated against SM83!Exec. Events of one scenario are independent: the  *)
 (* driver sets the registers before each of them.                            *)
 (*                                                                           *)
-(*  [1, pre, [op,b1,b2], bus, post, n, run, key]                             *)
+(*  [1, pre, [op,b1,b2], bus, post, n, run, key, dma]                        *)
+(*       dma: page of an OAM DMA started right before the unit (-1 none) -     *)
+(*       like key it changes nothing for the instruction                       *)
 (*       run: 1 halted + 2 stopped + 4 halt bug armed, after the unit;         *)
 (*       key: a key event (CPU.OnInput) arrived after that machine cycle of    *)
 (*       the unit (-1 none) - it changes nothing, so the spec ignores it       *)
